@@ -21,7 +21,9 @@
    the visit to a response (status, Location field) or a failure (any REMOTE_ERROR raised by
    session.start()/download(): reset, timeout, malformed response ...); the filter verdict
    [consult] is any function of (try_count, URL, waiver flag); robots.txt handling is any
-   function of the URL (its own requests belong to C20).
+   function of the URL (its own requests belong to C20); it is consulted for the item's URL
+   before the session starts and for the URL of every later request of the visit (redirect
+   targets) after that request passed the filters.
 
    Not modelled (stated boundary): plugin hooks (Actions other than NORMAL), the PhantomJS /
    youtube-dl coprocessors, the FTP processor, cookies, request bodies, waiting times. *)
@@ -125,7 +127,7 @@ Inductive robots_result := RAllow | RDeny | RFail.
 
 Inductive event :=
 | EConsult (u : vstr) (waived : bool) (verdict : bool)     (* FetchRule.consult_filters(url_info, record, is_redirect) *)
-| ERobots (u : vstr)                                       (* consult_robots_txt for the item's request *)
+| ERobots (u : vstr)                                       (* consult_robots_txt for a request: the item's own, and every later one of the visit *)
 | ERequest (k : rkind) (rq : req)                          (* WebSession.start(): one request on the wire *)
 | EStatus (s : vstatus).                                   (* set_status / skip *)
 
@@ -156,6 +158,17 @@ Section Processor.
     else if zmem status NO_DOCUMENT_STATUS_CODES then VSkipped
     else VError.
 
+  (* _process_loop asks consult_robots_txt for every request after the first one (the target of
+     a redirect, or the repeat with credentials): [hist] is empty exactly in the first iteration,
+     whose URL _process_robots has already cleared *)
+  Definition hop_robots (hist : list req) (rq : req) : option robots_result :=
+    match hist with
+    | [] => None
+    | _ :: _ => if c_robots cfg then Some (robots (rq_url rq)) else None
+    end.
+  Definition robots_events (hist : list req) (rq : req) : list event :=
+    match hop_robots hist rq with Some _ => [ERobots (rq_url rq)] | None => [] end.
+
   (* _process_loop; None = out of fuel *)
   Fixpoint loop (fuel : nat) (w : wsess) (hist : list req) : list event * option vstatus :=
     match fuel with
@@ -168,7 +181,13 @@ Section Processor.
             let v := consult (rq_url rq) waived in
             if negb v then ([EConsult (rq_url rq) waived v; EStatus VSkipped], Some VSkipped)
             else
-              let pre := [EConsult (rq_url rq) waived v; ERequest (kind_of (ws_loop w)) rq] in
+              match hop_robots hist rq with
+              | Some RFail =>                                   (* _process_redirect_robots: handle_error *)
+                  ([EConsult (rq_url rq) waived v; ERobots (rq_url rq); EStatus VError], Some VError)
+              | Some RDeny =>                                   (* _process_redirect_robots: skip *)
+                  ([EConsult (rq_url rq) waived v; ERobots (rq_url rq); EStatus VSkipped], Some VSkipped)
+              | _ =>
+              let pre := EConsult (rq_url rq) waived v :: robots_events hist rq ++ [ERequest (kind_of (ws_loop w)) rq] in
               match server (hist ++ [rq]) with
               | Fail => (pre ++ [EStatus VError], Some VError)            (* handle_error *)
               | Resp status location =>
@@ -181,6 +200,7 @@ Section Processor.
                       else
                         let s := final_status status in (pre ++ [EStatus s], Some s)
                   end
+              end
               end
         end
     end.
